@@ -159,6 +159,16 @@ def cases(tier, seed):
                             if n == top and stat in ("range", "var", "first-last", "max", "std-ddof1", "mean-positive") and (lo, hi) not in ((0.0, 0.0), (0.5, 1.5)):
                                 continue
                             yield {"fam": "fixed", "cpts": list(cps), "x": list(xs), "stat": stat, "lo": lo, "hi": hi}
+    # MANY segments in one output (up to 13 / 15): every changepoint subset of a series of length 13 (thorough 15) on three
+    # fixed series whose segment statistics fall on both sides of the bounds in many patterns
+    nn = 13 if q else 15
+    many = [[(-2, 0, 2, 2, -2, 0)[(i * i + i // 3) % 6] for i in range(nn)], [(2, -2)[(i // 2) % 2] * (1 + i % 2) for i in range(nn)],
+            [((i * 5) % 7) - 3 for i in range(nn)]]
+    for mask in range(2 ** (nn - 1)):
+        cps = [i + 1 for i in range(nn - 1) if mask >> i & 1]
+        xs = many[mask % 3]
+        for stat, (lo, hi) in (("mean", (-1.0, 1.0)), ("max", (0.0, 0.0))) if mask % 2 else (("median", (-1.0, -1.0)),):
+            yield {"fam": "fixed", "cpts": cps, "x": list(xs), "stat": stat, "lo": lo, "hi": hi}
     # non-default index for the user detector
     for cps in itertools.chain.from_iterable(itertools.combinations(range(1, 5), k) for k in range(0, 4)):
         for xs in itertools.product((-2, 0, 2), repeat=5):
@@ -188,7 +198,7 @@ def shards(tier, seed):
 
 
 def bounds(tier, seed):
-    return {"fixed": "all changepoint subsets x all (-2,0,2) series for n<=5 (quick)/6", "stats": list(STATS), "bounds": [list(b) for b in BOUNDS],
+    return {"fixed": "all changepoint subsets x all (-2,0,2) series for n<=5 (quick)/6; every changepoint subset of three fixed series of length 13 (quick) / 15 (up to 13 / 15 segments in one output)", "stats": list(STATS), "bounds": [list(b) for b in BOUNDS],
             "real": "PELT, MovingWindow, SeededBinarySegmentation on all (0,4) series n in 4..8 (quick)/9", "index kinds for n=5": ["offset", "datetime", "period", "step2"]}
 
 
